@@ -145,6 +145,10 @@ def corr_tolerance(p: dict) -> float:
 def run(ctx) -> None:
     rep = ctx.report
     rng = ctx.rng
+    import context_probes as CP
+    # "the 6D map applied to the beam": the same map whatever the element's surroundings; diagnostics leave coordinates untouched
+    CP.in_segment_probe(ctx, "C02", ctx.n(36, 900))
+    CP.diagnostics_probe(ctx, "C02", ctx.n(16, 400))
     bad = run_maps_correspondence(ctx, "C02", ctx.n(40, 1200))
     for p, En, real, model, entry in bad:
         before = len(rep.failures)
@@ -188,6 +192,12 @@ def falsify_one(rep, p, En, real) -> None:
 
 def replay(ctx, data) -> bool:
     r = data["replay"]
+    if r.get("kind") in ("in_segment", "diagnostic"):
+        from common import Report
+        import context_probes as CP
+        rp = Report("C02")
+        (CP.in_segment_case if r["kind"] == "in_segment" else CP.diagnostics_case)(rp, "C02", r)
+        return bool(rp.failures)
     p, En = r["params"], r["energy"]
     real = E.real_map(E.build(p), En)
     exp = oracle(p, En)
